@@ -113,8 +113,8 @@ type planOutcome struct {
 	real     realResult
 	model    string // raw answer of the driver
 	agree    bool
-	crash    string // known crash class of the unrepaired code, "" if none
-	excluded bool
+	crash      string // known crash class of the unrepaired code, "" if none
+	oracleOnly bool   // model and code disagree on the call list; the oracle still runs on the real script
 }
 
 // planBoth runs the real planner and the model on (store, files) and compares.
@@ -203,6 +203,7 @@ func (e *engine) planBoth(c *Case, store *Config, stream string) planOutcome {
 	if mf[1] != want {
 		mc := strings.NewReplacer(sRS, " ", sUS, "|", sGS, "\n").Replace(mf[1])
 		e.res.Disagree(stream+": call list", input, showCalls(real.Calls), mc)
+		out.oracleOnly = true // the oracle does not depend on the model: still check the real script
 		return out
 	}
 	out.agree = true
@@ -316,7 +317,7 @@ func (e *engine) oneCase(c *Case) {
 		}
 		return
 	}
-	if !po.agree || po.real.Kind != "ok" {
+	if (!po.agree && !po.oracleOnly) || po.real.Kind != "ok" {
 		res.Eval(canon, false)
 		return
 	}
@@ -414,7 +415,7 @@ func (e *engine) oneCase(c *Case) {
 			e.fail("resume-plan", pk.crash, fmt.Sprintf("planner panics on the state after %d of %d calls: %s", k, len(calls), pk.real.Msg), c)
 			continue
 		}
-		if !pk.agree || pk.real.Kind != "ok" {
+		if (!pk.agree && !pk.oracleOnly) || pk.real.Kind != "ok" {
 			continue
 		}
 		clk := parseFlags(e.drv.Ask("class\t" + encConfig(sk) + "\t" + encConfig(T)))
